@@ -4,26 +4,33 @@ use crate::*;
 
 
 pub(crate) fn impl_sqrt(n: &BigUint, scale: i64, ctx: &Context) -> BigDecimal {
-    // Calculate the number of digits and the difference compared to the scale
+    // number of digits to calculate: twice the precision (sqrt halves the
+    // number of digits) plus a few extra for rounding
     let num_digits = count_decimal_digits_uint(n);
-    let scale_diff = BigInt::from(num_digits) - scale;
-
-    // Calculate the number of wanted digits and the exponent we need to raise the original value to
-    // We want twice as many digits as the precision because sqrt halves the number of digits
-    // We add an extra one for rounding purposes
     let prec = ctx.precision().get();
     let extra_rounding_digit_count = 5;
     let wanted_digits = 2 * (prec + extra_rounding_digit_count);
-    let exponent = wanted_digits.saturating_sub(num_digits) + u64::from(scale_diff.is_odd());
-    let sqrt_digits = (n * ten_to_the_uint(exponent)).sqrt();
 
-    // Calculate the scale of the result
-    let result_scale_digits = 2 * (2 * prec - scale_diff) - 1;
-    let result_scale_decimal: BigDecimal = BigDecimal::new(result_scale_digits, 0) / 4.0;
-    let mut result_scale = result_scale_decimal.with_scale_round(0, RoundingMode::HalfEven).int_val;
+    // pad with zeros to the wanted number of digits, keeping the scale of
+    // the padded integer even so the scale of the root is an integer
+    let mut exponent = wanted_digits.saturating_sub(num_digits);
+    let shifted_scale = scale as i128 + exponent as i128;
+    if shifted_scale % 2 != 0 {
+        exponent += 1;
+    }
+    let shifted_scale = scale as i128 + exponent as i128;
 
-    // Round the value so it has the correct precision requested
-    result_scale += count_decimal_digits_uint(&sqrt_digits).saturating_sub(prec);
+    let shifted_digits = n * ten_to_the_uint(exponent);
+    let mut sqrt_digits = shifted_digits.sqrt();
+    let mut result_scale = shifted_scale / 2;
+
+    // if the integer root is not exact, record that the true root has
+    // non-zero digits beyond those calculated
+    if &sqrt_digits * &sqrt_digits != shifted_digits {
+        sqrt_digits = sqrt_digits * 10u8 + 1u8;
+        result_scale += 1;
+    }
+
     let unrounded_result = BigDecimal::new(sqrt_digits.into(), result_scale.to_i64().unwrap());
     unrounded_result.with_precision_round(ctx.precision(), ctx.rounding_mode())
 }
